@@ -42,10 +42,24 @@ def generate(seed: int, tier: str, index: int) -> dict:
     spec = mc.generate_live(ID, seed, tier, index, templates=["hand_made.mpd", "hand_made.mpd", "manifest_n.mpd"],
                             richness=0.15, wakeups=(1, 3), seg_cap=90, select=["all"], extra_force=force,
                             young_ok=False, encrypted_ok=False, events_ok=False, forge_p=0.5)
+    # the other observers keep the event instants (start, interval, timescale) but half of them ask for another
+    # duration and count: whatever the server remembers about an event must not travel between clients
+    rng3 = base.rng_for(seed, "perturb")
+    for a in [x for x in spec["actors"] if x["id"].startswith("obs")][1:]:
+        if rng3.random() < 0.5:
+            for st in a["script"]:
+                if st["op"] != "manifest":
+                    continue
+                for k in kinds:
+                    cur = st["q"].get(f"{k}__duration")
+                    st["q"][f"{k}__duration"] = str((int(cur) if cur and cur.isdigit() else 200) + 37)
+                    cur = st["q"].get(f"{k}__count")
+                    st["q"][f"{k}__count"] = str((int(cur) if cur and cur.isdigit() else 0) + 3)
     # vod walks: same option vector, static mode (the whole track is one run)
     rng2 = base.rng_for(seed, "vod")
     for a in spec["actors"]:
         if a["id"].startswith("obs") and rng2.random() < 0.35:
+            a["static_media"] = True
             for st in a["script"]:
                 if st["op"] == "manifest":
                     st["path"] = st["path"].replace("/dash/live/", "/dash/vod/")
